@@ -44,7 +44,7 @@ OPNAMES = ["update_ibi_pot", "dist_boltzmann_invert", "table_linearop", "table_l
            "table_combine_sum", "merge_tables", "add_POT", "table_scale", "table_integrate",
            "resample_derivative", "integrate_derivative", "potential_shift", "table_smooth",
            "table_extrapolate", "potential_extrapolate", "table_get_value", "table_change_flag",
-           "table_dummy", "table_average", "dist_adjust", "table_switch_border"]
+           "table_dummy", "table_average", "dist_adjust", "table_switch_border", "resample_same"]
 # csg_table keys of the scripts that can also be reached through csg_call
 CALLKEY = {"update_ibi_pot": ("update", "ibi_pot"), "dist_boltzmann_invert": ("dist", "invert"),
            "table_linearop": ("table", "linearop"), "table_linearop_x": ("table", "linearop"),
@@ -88,9 +88,16 @@ def dist_value(e):
     return 0.0 if e == ZEXP else 2.0 ** e
 
 
-def grid(c, n=None, shift=Fraction(0)):
+def grid(c):
+    """abscissae of the case's table: (x0 + g[k]) * h, equidistant or not"""
     h = fr(c["h"])
-    return [float((c["x0"] + k) * h + shift) for k in range(n if n is not None else c["n"])]
+    return [float((c["x0"] + gk) * h) for gk in c["g"]]
+
+
+def half_grid(c):
+    """the equidistant grid (x0 + j + 1/2) * h, j = 0..g[n]-1: one or more points strictly inside every interval"""
+    h = fr(c["h"])
+    return [float((c["x0"] + j) * h + h / 2) for j in range(c["g"][-1])]
 
 
 def write_table(path, xs, ys, flags):
@@ -99,10 +106,9 @@ def write_table(path, xs, ys, flags):
             f.write("%r %r %s\n" % (x, y, fl))
 
 
-def write_tab(path, c, t, x0shift=0):
+def write_tab(path, c, t, first=0):
     n = len(t["y"])
-    h = fr(c["h"])
-    xs = [float((c["x0"] + x0shift + k) * h) for k in range(n)]
+    xs = grid(c)[first:first + n]
     write_table(path, xs, [real(q) for q in t["y"]], t["f"])
 
 
@@ -180,7 +186,7 @@ class Runner:
                 return [S(a + ["--sum", "in1.tab", "in2.tab"])], None, "scalar"
             return [S(a + ["in1.tab", "in2.tab", out])], out, "table"
         if op == "merge_tables":
-            write_tab(os.path.join(d, "src.tab"), c, c["src"], c["off"])
+            write_tab(os.path.join(d, "src.tab"), c, c["src"], c["off"])   # the source lives on points off.. of the common grid
             write_tab(os.path.join(d, "dst.tab"), c, c["dst"])
             a = []
             if c["wf"]:
@@ -209,10 +215,8 @@ class Runner:
             return [S(a + ["in.tab", out])], out, "table"
         if op in ("resample_derivative", "integrate_derivative"):
             write_tab(os.path.join(d, "in.tab"), c, c["t"])
-            h = fr(c["h"])
-            lo = (c["x0"]) * h + h / 2
-            hi = (c["x0"] + c["n"] - 1) * h - h / 2
-            g = "%r:%r:%r" % (float(lo), float(h), float(hi))
+            hg = half_grid(c)
+            g = "%r:%r:%r" % (hg[0], real(c["h"]), hg[-1])
             cmds = []
             src = "in.tab"
             if op == "integrate_derivative":
@@ -221,6 +225,12 @@ class Runner:
             cmds.append([os.path.join(self.bindir, "csg_resample"), "--in", src, "--out", "res.tab", "--type", "linear",
                          "--grid", g, "--derivative", out])
             return cmds, out, "table"
+        if op == "resample_same":
+            write_tab(os.path.join(d, "in.tab"), c, c["t"])
+            xs = grid(c)
+            a = ["--type", c["type"]] if c["type"] else []
+            return [[os.path.join(self.bindir, "csg_resample"), "--in", "in.tab", "--out", out,
+                     "--grid", "%r:%r:%r" % (xs[0], real(c["h"]), xs[-1]), "--derivative", "der.tab"] + a], out, "table"
         if op == "potential_shift":
             write_tab(os.path.join(d, "in.tab"), c, c["t"])
             a = ["--type", c["type"]] if c["type"] else []
@@ -294,27 +304,29 @@ class Runner:
             lines = [ln.strip() for ln in obs["stdout"].splitlines() if ln.strip()]
             obs["scalar"] = lines[-1] if lines else ""
         else:
-            path = os.path.join(d, out)
-            if not os.path.exists(path):
-                obs["rows"] = None
-            else:
-                ncol = 4 if kind == "table4" else 3
-                rows, bad = [], None
-                for ln in open(path):
-                    s = ln.strip()
-                    if not s or s[0] in "#@":
-                        continue
-                    p = s.split()
-                    try:
-                        if len(p) != ncol:
-                            raise ValueError("columns")
-                        rows.append(tuple(float(t) for t in p[:ncol - 1]) + (p[-1],))
-                    except ValueError:
-                        bad = bad or ln.rstrip("\n")
-                        rows.append(None)
-                obs["rows"] = rows
-                obs["malformed"] = bad
+            obs["rows"], obs["malformed"] = read_rows(os.path.join(d, out), 4 if kind == "table4" else 3)
+            if c["op"] == "resample_same":
+                obs["rows2"], obs["malformed2"] = read_rows(os.path.join(d, "der.tab"), 3)
         return obs
+
+
+def read_rows(path, ncol):
+    if not os.path.exists(path):
+        return None, None
+    rows, bad = [], None
+    for ln in open(path):
+        s = ln.strip()
+        if not s or s[0] in "#@":
+            continue
+        p = s.split()
+        try:
+            if len(p) != ncol:
+                raise ValueError("columns")
+            rows.append(tuple(float(t) for t in p[:ncol - 1]) + (p[-1],))
+        except ValueError:
+            bad = bad or ln.rstrip("\n")
+            rows.append(None)
+    return rows, bad
 
 
 # ------------------------------------------------------------------------------------------------
@@ -346,6 +358,8 @@ def variant(c):
         return c["fn"] or "quadratic"
     if op == "potential_extrapolate":
         return c["type"]
+    if op == "resample_same":
+        return c["type"] or "akima"
     return ""
 
 
@@ -353,8 +367,8 @@ def expected_x(c, exp, m):
     if "x" in exp:
         return [real(q) for q in exp["x"]]
     if c["op"] in ("resample_derivative", "integrate_derivative"):
-        return grid(c, m, fr(c["h"]) / 2)
-    return grid(c, m)
+        return half_grid(c)
+    return grid(c)
 
 
 def point_class(c, exp, k):
@@ -378,6 +392,18 @@ def point_class(c, exp, k):
 
 def judge(c, exp, obs, ctx=None, drift=None):
     """returns [(key, text)]"""
+    bad = judge1(c, exp, obs, ctx, drift)
+    if c["op"] == "resample_same" and obs["rc"] == 0:
+        # the --derivative table: flags of the input for every spline type, values (either adjacent slope) for the linear one
+        e2 = dict(exp["d"])
+        if (c["type"] or "akima") != "linear":
+            e2["free"] = list(range(1, len(e2["y"]) + 1))
+        o2 = dict(obs, rows=obs.get("rows2"), malformed=obs.get("malformed2"))
+        bad += [(k.replace("resample_same:", "resample_same:derivative:", 1), t) for k, t in judge1(c, e2, o2, ctx, None)]
+    return bad
+
+
+def judge1(c, exp, obs, ctx=None, drift=None):
     op = c["op"]
     var = variant(c)
     pre = op + (":" + var if var else "")
@@ -534,6 +560,15 @@ def rand_exps(rng, n):
 
 def large_case(rng, op, n, ident):
     c = {"id": ident, "op": op, "n": n, "seed": ident, "x0": rng.randint(0, 2), "h": rng.choice([[1, 4], [1, 2], [1, 1], [1, 8]])}
+    # equidistant or gaps 1..3 (scale: two readings on a non-equidistant table would make TLC's alternative set
+    # quadratic for 1000 points; resample_derivative: the half-step output grid would triple; both stay equidistant here)
+    if op in ("table_scale", "resample_derivative") or rng.randint(0, 1) == 0:
+        c["g"] = list(range(n))
+    else:
+        g = [0]
+        for _ in range(n - 1):
+            g.append(g[-1] + rng.randint(1, 3))
+        c["g"] = g
     if op == "update_ibi_pot":
         tg = rand_exps(rng, n)
         cu = list(tg) if rng.randint(0, 4) == 0 else rand_exps(rng, n)
@@ -577,6 +612,7 @@ def large_case(rng, op, n, ident):
         mode = "sphere" if n <= 100 and rng.randint(0, 3) == 0 else "plain"
         if mode == "sphere":
             c["h"] = rng.choice([[1, 4], [1, 8]])
+            c["g"] = list(range(n))
         c.update(t=rand_tab(rng, n), mode=mode, kt=[1, 1])
         c["from"] = rng.choice(["left", "right"])
     elif op == "resample_derivative":
@@ -624,10 +660,10 @@ def trace_record(c, obs):
         return None, (pre + ":no-output", "no output table written")
     if obs.get("malformed") is not None:
         return None, (pre + ":malformed-row", "output row %r is not a table row" % obs["malformed"])
-    m = c["n"] - 1 if c["op"] == "resample_derivative" else c["n"]
+    xs = half_grid(c) if c["op"] == "resample_derivative" else grid(c)
+    m = len(xs)
     if len(rows) != m:
         return None, (pre + ":grid:rows", "%d rows written, %d expected" % (len(rows), m))
-    xs = grid(c, m, fr(c["h"]) / 2 if c["op"] == "resample_derivative" else Fraction(0))
     ys = []
     for k in range(m):
         if abs(rows[k][0] - xs[k]) > 1e-12 * max(1.0, abs(xs[k])):
